@@ -73,6 +73,20 @@ fn ill_typed(rng: &mut Rng) -> Value {
     }
 }
 
+/// serde's other spellings of a unit-only enum variant `name` (the usual one is the string): the
+/// externally tagged form `{name: null}` is accepted everywhere; `{name: {}}` only where the value is
+/// deserialised from serde's buffered content (inside an internally tagged enum); anything else is
+/// refused.  Returns (value, accepted).
+fn unit_forms(rng: &mut Rng, name: &str, buffered: bool) -> (Value, bool) {
+    match rng.below(8) {
+        0 | 1 | 2 | 3 => (json!({ name: null }), true),
+        4 => (json!({ name: {} }), buffered),
+        5 => (json!({ name: null, "other": null }), false),
+        6 => (json!({ name: 1 }), false),
+        _ => (json!([name]), false),
+    }
+}
+
 fn put_path(cfg: &Value, path: &str) -> Value {
     match cfg {
         Value::String(s) if s == FILE => Value::String(path.to_string()),
@@ -335,6 +349,19 @@ fn op_speng(ctx: &mut Ctx, idx: usize, rng: &mut Rng, corpus: Option<Vec<NumRow>
         }
         expect = Expect::Err;
     }
+    if cfg_ok && !is_corpus && rng.chance(1, 6) {
+        // a unit written in serde's other form
+        let keys: Vec<&str> = ["speed_unit", "distance_unit", "time_unit"].into_iter().filter(|k| cfg.contains_key(*k)).collect();
+        let key = *rng.pick(&keys);
+        let name = cfg[key].as_str().unwrap_or("").to_string();
+        let (v, accepted) = unit_forms(rng, &name, false);
+        cfg.insert(key.into(), v);
+        ctx.count("bld_unit_as_map");
+        if !accepted {
+            cfg_ok = false;
+            expect = Expect::Err;
+        }
+    }
     let cfg = Value::Object(cfg);
     let gzip = rng.chance(1, 5);
     let sc = Scratch::new();
@@ -474,6 +501,16 @@ fn op_dist(ctx: &mut Ctx, idx: usize, rng: &mut Rng) {
         1 => {
             cfg.insert("distance_unit".into(), if rng.chance(1, 2) { json!(*rng.pick(&["km", "Meters", "seconds", ""])) } else { ill_typed(rng) });
             expect = Expect::Err;
+        }
+        2 => {
+            // serde's other form of a unit variant: {"miles": null}
+            let name = rng.pick(&DU).to_string();
+            let (v, accepted) = unit_forms(rng, &name, false);
+            cfg.insert("distance_unit".into(), v);
+            ctx.count("bld_unit_as_map");
+            if !accepted {
+                expect = Expect::Err;
+            }
         }
         _ => {
             cfg.insert("distance_unit".into(), json!(rng.pick(&DU).to_string()));
@@ -714,6 +751,31 @@ fn op_heads(ctx: &mut Ctx, idx: usize, rng: &mut Rng, corpus_neg: Option<f64>) {
             }
         }
     }
+    else if !is_corpus && rng.chance(1, 5) {
+        // serde's other forms: the internally tagged enum as a positional array, the unit as a map
+        ctx.count("bld_heads_serde_forms");
+        let tbl = tdm["table"].clone();
+        let (unit, accepted) = if rng.chance(1, 2) { unit_forms(rng, &tu.to_string(), true) } else { (json!(tu.to_string()), true) };
+        match rng.below(5) {
+            0 | 1 => tdm = json!(["tabular_discrete", tbl, unit]),
+            2 => {
+                tdm["time_unit"] = unit;
+            }
+            3 => {
+                // wrong arity
+                tdm = if rng.chance(1, 2) { json!(["tabular_discrete", tbl]) } else { json!(["tabular_discrete", tbl, unit, 1]) };
+                expect = Expect::Err;
+            }
+            _ => {
+                // fields in the wrong order / an unknown tag
+                tdm = if rng.chance(1, 2) { json!(["tabular_discrete", unit, tbl]) } else { json!(["tabular", tbl, unit]) };
+                expect = Expect::Err;
+            }
+        }
+        if !accepted {
+            expect = Expect::Err;
+        }
+    }
     let tdm_missing = !is_corpus && rng.chance(1, 20);
     if tdm_missing {
         expect = Expect::Err;
@@ -933,6 +995,18 @@ fn gen_vp_query(rng: &mut Rng) -> (Value, VParams, Expect, &'static str) {
             vp["colour"] = json!("red");
             q["road_classes"] = json!([1]);
         }
+        9 => {
+            // a unit in serde's other form: [5.0, {"feet": null}]
+            label = "unit-as-map";
+            let f = *rng.pick(&["height", "width", "total_length", "trailer_length", "total_weight"]);
+            let name = vp[f][1].as_str().unwrap_or("").to_string();
+            let (v, accepted) = unit_forms(rng, &name, false);
+            vp[f][1] = v;
+            if !accepted {
+                expect = Expect::Err;
+                label = "unit-as-bad-map";
+            }
+        }
         _ => {}
     }
     q["vehicle_parameters"] = vp;
@@ -1074,7 +1148,24 @@ fn op_rc(ctx: &mut Ctx, idx: usize, rng: &mut Rng) {
     match mapping_mode {
         0..=3 => {
             has_mapping = true;
-            cfg.insert("road_class_parser".into(), json!({"mapping": road_class_mapping_json()}));
+            if rng.chance(1, 4) {
+                // the struct in serde's positional form: a sequence of exactly its one field
+                ctx.count("bld_rc_parser_as_sequence");
+                cfg.insert("road_class_parser".into(), json!([road_class_mapping_json()]));
+            } else {
+                cfg.insert("road_class_parser".into(), json!({"mapping": road_class_mapping_json()}));
+            }
+        }
+        4 if rng.chance(1, 3) => {
+            expect = Expect::Err;
+            cfg.insert(
+                "road_class_parser".into(),
+                match rng.below(3) {
+                    0 => json!([]),
+                    1 => json!([road_class_mapping_json(), road_class_mapping_json()]),
+                    _ => json!([{"a": 300}]),
+                },
+            );
         }
         4 => {
             expect = Expect::Err;
